@@ -62,6 +62,8 @@ type respDelivery struct {
 	TermAt       int
 	TermWithData bool
 	Async        bool
+	// TermDelay: the terminal condition is set that long after the last byte was delivered (silence first).
+	TermDelay time.Duration
 }
 
 type respClient struct {
@@ -197,6 +199,7 @@ func runResp(cfg simrt.Config, d respDelivery, c respClient) *respResult {
 			}
 		}
 		if d.TermAt >= 0 {
+			at += d.TermDelay
 			if d.Async || at > 0 {
 				p.Conn.EndAfter(at, d.TermKind, d.TermWithData)
 			} else {
